@@ -7,17 +7,89 @@ PROP = dict(
              args=["--watchdog", "60"], case_timeout=120),
         dict(name="pool", harness="c02_timers", flavour="asan", mode="pool", quick=30000, thorough=1500000,
              args=["--watchdog", "60"], case_timeout=120),
-        dict(name="exhaustive-depth3", harness="c02_timers", flavour="asan", mode="exhaustive", args=["--depth", "3", "--watchdog", "120"],
-             quick=5400, thorough=0, scalable=False, exhaustive=True, case_timeout=300),
-        dict(name="exhaustive-depth4", harness="c02_timers", flavour="asan", mode="exhaustive", args=["--depth", "4", "--watchdog", "300"],
-             quick=0, thorough=5400, scalable=False, exhaustive=True, case_timeout=900),
+        # one case = one (configuration of the 3 timers, callback action) pair = 17^depth scripts; 216 x 25 = 5400 cases
+        dict(name="exhaustive-depth3", harness="c02_timers", flavour="asan", mode="exhaustive",
+             args=["--depth", "3", "--watchdog", "120"], quick=5400, thorough=0, scalable=False, exhaustive=True,
+             case_timeout=300),
+        dict(name="exhaustive-depth4", harness="c02_timers", flavour="asan", mode="exhaustive",
+             args=["--depth", "4", "--watchdog", "300"], quick=0, thorough=5400, scalable=False, exhaustive=True,
+             case_timeout=900),
+        # real clock, real sleeps: ~50-100 ms per case, almost all of it asleep
         dict(name="realtime", harness="c02_timers", flavour="asan", mode="realtime", quick=64, thorough=640,
              args=["--watchdog", "30"], case_timeout=60),
     ],
-    rule="TBD",
-    assumptions=[],
-    technique="TBD",
-    level_text="TBD",
-    level_note="TBD",
-    required_counters={"all": []},
+    rule=("timer: a seeded history over 1-8 event::TimerEvent slots on a real loop (epoll for even, select for odd case numbers) under a "
+          "virtual monotonic clock that starts at 0, near 2^31/2^32 ms, 2^32 s, 2^53, ~2^62 or a random large value; intervals from a "
+          "per-case palette (one value only = everything ties; {1,2,3}; harmonic {5,10,20,40}; {1,1,2,50}; six random values in 1..50); "
+          "5-26 steps of 0-3 operations (create+initialize, enable, disable, restart, re-initialise with a new interval/mode, destroy, "
+          "enable while enabled, disable while disabled) followed by a clock advance drawn from {0, 1, d-1, d, d+1, k*d+r with k<=10, "
+          "exactly to the nearest deadline, one ms before it, exactly to one timer's deadline, beyond every deadline} and one loop "
+          "pass; half of the cases drive every pass with runLoop(kOnce) (operations between passes happen while the loop is not "
+          "running), the other half run the whole script from a deferred task inside one runLoop(kForever); with a per-case "
+          "probability (0/10/35/70 %) a callback performs 1-2 operations itself: disable / restart / re-initialise the firing timer, "
+          "schedule its own deferred destruction, advance the clock (a slow callback), or disable / enable / restart / re-initialise / "
+          "destroy / create ANOTHER timer, preferring one that is due in the same pass; a quarter of the cases first churn the loop "
+          "with 5/70/140 short-lived timers (cabinet slot and pooled-record reuse, beyond the pool's retention of 64). Every callback "
+          "is judged when it arrives (armed in the model, clock >= t_enable+k*d, no armed timer with an earlier deadline, one-shot "
+          "already reports disabled); after every pass no armed timer may have a deadline <= the clock the pass started with and "
+          "isEnabled() of every timer equals the model; getWaitTime() read before a pass must lie in [0, nearest deadline - now]. "
+          "pool: the same protocol through eventx::TimerPool (doEvery, doAfter, cancel of live / already fired / already cancelled / "
+          "pre-cleanup tokens, cancel of itself or of a timer due in the same pass from a callback, cleanup outside and inside "
+          "callbacks followed by new timers). exhaustive: three timers, every assignment of {one-shot, persistent} x d in {1,2,3} "
+          "(216), all enabled at t0; one of 25 callback actions (none, or: when timer a fires it disables / restarts timer b in "
+          "{0,1,2} or destroys timer b != a); inside each such case EVERY script of `depth` symbols over {enable i, disable i, destroy i "
+          "(enable re-creates), pass with advance 0..7} plus a closing pass is run (17^3 = 4913 scripts per case in the quick tier, "
+          "17^4 = 83521 in the thorough tier). realtime: 2-6 timers with d in 1..15 ms on a loop that really sleeps, exit timer 30-70 ms, "
+          "optionally one timer disabled or restarted from another one's callback. "
+          "A timer/pool case is non-trivial when at least 3 timers were armed at once and a callback mutated a timer or the loop woke at "
+          "least one full interval late; distinct = distinct hashes of the executed operation/advance sequence among those"),
+    assumptions=[
+        "'never skipped' is decided as bounded progress on the virtual clock: the pass that starts with clock value now must have served "
+        "every armed deadline <= now before it ends (the clock only moves when the harness moves it, so lateness never comes from the "
+        "machine); deadlines that only become due because a callback advanced the clock may wait for the next pass",
+        "deadline order is judged per invocation (every catch-up invocation of a persistent timer has its own deadline t+k*d); ties are free",
+        "initialize() on an enabled timer leaves it disabled (the implementation disables first) and enable() on an enabled timer keeps "
+        "the running interval; both are what the code documents by construction, the property text is silent on them",
+        "a TimerEvent is never deleted from inside its own callback (TBOX_ASSERT by design): self-destruction is generated as a deferred "
+        "runNext task; a TimerPool is never destroyed from inside one of its callbacks; intervals are >= 1 ms; doAt (wall clock) is not driven",
+        "the epoll_wait/select timeout itself is not timed: 'sleeps no longer than the nearest deadline' is observed through a probe "
+        "subclass calling the protected CommonLoop::getWaitTime() before passes, and in the realtime leg only as 'a loop that never "
+        "wakes is a hang'; lateness against the wall clock is never judged",
+        "realtime leg: only implications that hold under any machine load are checked (callback not before enable+k*d on steady_clock; "
+        "every deadline strictly before the exit timer's has been served when runLoop returns, because the heap serves it first)",
+    ],
+    technique=("lock-step reference model (list of armed deadlines) judging every timer callback of the real loop under a virtual "
+               "monotonic clock, random and exhaustively enumerated histories incl. mutations from inside callbacks, ASan+UBSan "
+               "with poisoned pooled timer records; protected getWaitTime() probed; a small real-clock leg"),
+    level_text=("Every timer callback of every generated history is compared, at the moment it arrives, with an independent model of "
+                "armed deadlines while the loop runs on a harness-driven clock (both back-ends, loop driven pass by pass and from inside "
+                "runLoop); all scripts of 3 (quick) / 4 (thorough) symbols over three timers with every interval/mode assignment and "
+                "25 in-callback actions are enumerated completely. Held on the histories explored, not a proof."),
+    level_note=("trusts the deadline-list model, the steady-clock hook (the only way time moves), gcc ASan/UBSan and the pool "
+                "poisoning hook; the kernel wait itself is only exercised by the 64/640 realtime cases"),
+    required_counters={"all": [
+        # who ran
+        "engine_epoll", "engine_select", "drive_runloop_once_per_pass", "drive_inside_runloop_forever",
+        "timer_event_callbacks", "pool_doEvery_callbacks", "pool_doAfter_callbacks", "x_scripts", "rt_callbacks",
+        # deadline = now + interval at enable time; fresh interval on re-enable
+        "op_reenable", "first_fire_after_reenable_checked_against_fresh_interval", "pass_started_exactly_on_nearest_deadline",
+        "pass_started_one_ms_before_nearest_deadline", "fired_exactly_on_deadline", "op_enable_inside_pass",
+        # pop-min / re-push with deadline += interval: catch-up, late wakes, ties
+        "fires_oneshot", "fires_persistent", "catchup_fires_same_pass", "late_wake_two_or_more_periods",
+        "late_wake_oneshot_overdue_by_an_interval", "ties_two_timers_same_deadline_same_pass", "armed_sharing_a_deadline",
+        "pass_with_three_or_more_timers_due", "cb_clock_advanced_inside_callback",
+        # removal by forcing the deadline to 0 + re-heapify; storage freed later; token reuse
+        "removed_from_middle_of_deadline_order", "removed_nearest_deadline", "removed_while_due_in_this_pass",
+        "cb_disable_other_due_in_same_pass", "cb_destroy_other_due_in_same_pass", "cb_restart_other_due_in_same_pass",
+        "cb_disable_self", "cb_restart_self", "cb_reinit_self", "deferred_self_destroy_while_armed",
+        "op_disable_after_oneshot_fired_noop", "cases_on_loop_aged_beyond_pool_retention",
+        # one-shot marks itself disabled before the user callback
+        "oneshot_isenabled_false_in_callback_checked",
+        # loop sleeps no longer than the nearest deadline
+        "wait_time_equals_distance_to_nearest_deadline", "wait_time_zero_with_overdue_timer", "rt_lower_bound_checked",
+        # TimerPool
+        "op_cancel_live", "op_cancel_stale_token", "op_cancel_token_from_before_cleanup", "cb_cancel_other_due_in_same_pass",
+        "cb_cancel_self_persistent", "cb_cancel_self_oneshot_already_fired", "op_cleanup_with_live_timers", "op_cleanup_inside_pass",
+        "cb_add_right_after_cleanup", "tail_cleanup_then_far_pass", "tail_all_disabled_then_far_pass",
+    ]},
 )
